@@ -153,7 +153,7 @@ class ArgsFormat(object):
         return False
 
     def has_required_argument(self, include_base=True):  # type: (bool) -> bool
-        if not self._hash_optional_arg and self._arguments:
+        if any(argument.is_required() for argument in self._arguments.values()):
             return True
 
         if include_base and self._base_format:
